@@ -33,6 +33,9 @@ type c06Case struct {
 	// Backlog (v3.1 / v3.1.1, whose CONNECT resumes): the session exists already and QoS 1 messages are waiting for
 	// it - they may follow the CONNACK, nothing may precede it
 	Backlog bool `json:"backlog,omitempty"`
+	// NoShared: the broker runs with shared subscriptions switched off (a SUBSCRIBE whose "qos" is 2 names a
+	// $share/ filter last: refused with a code of its own in the SUBACK, in every protocol version)
+	NoShared bool `json:"noshared,omitempty"`
 }
 
 type c06Step struct {
@@ -62,6 +65,7 @@ func (p *c06Prop) Parallel() int { return 8 }
 func (p *c06Prop) Gen(r *Rng, i int, tier string) interface{} {
 	c := &c06Case{Ver: []int{3, 4, 5}[i%3], Allowed: !r.Chance(8), SubsID: !r.Chance(25)}
 	c.Backlog = c.Ver != 5 && c.Allowed && r.Chance(20)
+	c.NoShared = r.Chance(25)
 	subscribed := map[int]bool{}
 	q2used := map[int]bool{}
 	mk := func(t int) c06Pkt {
@@ -105,6 +109,9 @@ func (p *c06Prop) Gen(r *Rng, i int, tier string) interface{} {
 					if pk.NF >= 2 && r.Chance(12) {
 						pk.QoS = 1 // the LAST filter is a shared subscription with No Local: a protocol error, whatever precedes it
 					}
+				}
+				if pk.QoS == 0 && pk.NF >= 2 && r.Chance(15) {
+					pk.QoS = 2 // the LAST filter begins with $share/
 				}
 			} else {
 				// v5: stay outside known finding C06-unsuback-no-codes: unsubscribe what is subscribed
@@ -242,6 +249,9 @@ func c06Build(ver mqttp.ProtocolVersion, pk c06Pkt, k int) ([]byte, error) {
 			fs[pk.NF-1] = "$share/g/" + fs[pk.NF-1]
 			ops[pk.NF-1] = 0x04
 		}
+		if pk.QoS == 2 && pk.NF >= 2 {
+			fs[pk.NF-1] = "$share/g/" + fs[pk.NF-1] // a legal filter: accepted or, with shared subscriptions off, refused by its code
+		}
 		s := mkSubscribe(ver, uint16(id), fs, ops)
 		if pk.Flag && ver == mqttp.ProtocolV50 {
 			_ = s.PropertySet(mqttp.PropertySubscriptionIdentifier, uint32(7))
@@ -327,7 +337,7 @@ func (p *c06Prop) Run(ci interface{}) interface{} {
 		vers = v2
 	}
 	au := &progAuth{password: func(_, user, _ string) bool { return user != "deny" }}
-	b, err := NewBroker(BrokerOpts{Versions: vers, SubsID: c.SubsID, SubsShared: true, Auth: []*progAuth{au}})
+	b, err := NewBroker(BrokerOpts{Versions: vers, SubsID: c.SubsID, SubsShared: !c.NoShared, Auth: []*progAuth{au}})
 	if err != nil {
 		obs.Err = err.Error()
 		return obs
